@@ -8,43 +8,45 @@ DOC_NAME = {}   # doc heading -> VariantType name (identity unless listed)
 STRING_ALIAS = ("String", "BinaryString")
 
 
+def data_table(prog, fn):
+    """the table as data: [(VariantType name, id)] rows of the const slice the function searches (`TABLE.iter().find(..)`:
+    the first matching row wins), and the explicit `if ty == VariantType::X { return Some(id) }` cases in front"""
+    VT = "rbx_types::variant::VariantType::"
+    rows, first = [], []
+    for m in core.walk_fn(fn):
+        if m.get("k") == "Path" and str(m.get("res", "")).startswith(("Const", "Static")):
+            cf = prog.fns.get(m.get("def") or "")
+            if cf is not None and cf.body is not None:
+                for y in core.walk(cf.body):
+                    if y.get("k") == "Tup" or (y.get("k") == "Tuple"):
+                        el = [core.strip(z) for z in (y.get("args") or y.get("es") or y.get("elems") or [])]
+                        if len(el) == 2 and el[0].get("k") == "Path" and (el[0].get("def") or "").startswith(VT) and isinstance(core.lit_value(el[1]), int):
+                            rows.append((vname(el[0]["def"]), core.lit_value(el[1])))
+        if m.get("k") == "If":
+            cnd = core.strip(m["c"])
+            if cnd.get("k") == "Binary" and cnd.get("op") == "==":
+                rets = [z for z in core.walk(m["t"]) if z.get("k") == "Ret"]
+                vt = [core.strip(sd) for sd in (cnd["l"], cnd["r"]) if core.strip(sd).get("k") == "Path" and (core.strip(sd).get("def") or "").startswith(VT)]
+                if rets and vt:
+                    lits = [core.lit_value(z) for z in core.walk(rets[0]) if z.get("k") == "Lit" and isinstance(core.lit_value(z), int)]
+                    if lits:
+                        first.append((vname(vt[0]["def"]), lits[0]))
+    return first, rows
+
+
 def rule_ids(c, prog):
     R = "C14.ids"
     c.rule(R, "type_ids! tables: from_variant_type / to_variant_type mutually inverse (except String->0x02), ids = docs/attributes.md, every id has a reader arm and every typed variant a writer arm")
     frm = prog.fn(TID + "from_variant_type")
     to = prog.fn(TID + "to_variant_type")
-    def data_table(fn):
-        """the table as data: [(VariantType name, id)] rows of the const slice the function searches (`TABLE.iter().find(..)`:
-        the first matching row wins), and the explicit `if ty == VariantType::X { return Some(id) }` cases in front"""
-        VT = "rbx_types::variant::VariantType::"
-        rows, first = [], []
-        for m in core.walk_fn(fn):
-            if m.get("k") == "Path" and str(m.get("res", "")).startswith(("Const", "Static")):
-                cf = prog.fns.get(m.get("def") or "")
-                if cf is not None and cf.body is not None:
-                    for y in core.walk(cf.body):
-                        if y.get("k") == "Tup" or (y.get("k") == "Tuple"):
-                            el = [core.strip(z) for z in (y.get("args") or y.get("es") or y.get("elems") or [])]
-                            if len(el) == 2 and el[0].get("k") == "Path" and (el[0].get("def") or "").startswith(VT) and isinstance(core.lit_value(el[1]), int):
-                                rows.append((vname(el[0]["def"]), core.lit_value(el[1])))
-            if m.get("k") == "If":
-                cnd = core.strip(m["c"])
-                if cnd.get("k") == "Binary" and cnd.get("op") == "==":
-                    rets = [z for z in core.walk(m["t"]) if z.get("k") == "Ret"]
-                    vt = [core.strip(sd) for sd in (cnd["l"], cnd["r"]) if core.strip(sd).get("k") == "Path" and (core.strip(sd).get("def") or "").startswith(VT)]
-                    if rets and vt:
-                        lits = [core.lit_value(z) for z in core.walk(rets[0]) if z.get("k") == "Lit" and isinstance(core.lit_value(z), int)]
-                        if lits:
-                            first.append((vname(vt[0]["def"]), lits[0]))
-        return first, rows
     try:
         fm, fd, _ = tables.simple_map(frm)
         tm, td, _ = tables.simple_map(to)
         v2i = {vname(k[1]): v[1] for k, v in fm.items() if k[0] == "v" and v[0] == "lit"}
         i2v = {k[1]: vname(v[1]) for k, v in tm.items() if k[0] == "lit" and v[0] == "v"}
     except core.AnchorMissing:
-        f1, r1 = data_table(frm)
-        f2, r2 = data_table(to)
+        f1, r1 = data_table(prog, frm)
+        f2, r2 = data_table(prog, to)
         if not r1 or not r2:
             raise
         v2i, i2v, fd, td = {}, {}, [], []
